@@ -122,6 +122,11 @@ def run(chk):
             cases.append({'config': carrier_yaml(), 'files': {'main.asm': 'start:\nld8 SYMA\n#if SYMA == 13\n.byte 1\n#else\n.byte 2, 3\n#endif\nafter:\n.2byte after\n'},
                           'defines': defs, 'pretty': fmt})
             tags.append(('command-line symbols', json.dumps(defs), fmt))
+    # one library file reachable through two searched directories as the very same file (hard link)
+    for fmt in ('listing', None):
+        cases.append({'config': carrier_yaml(), 'files': {'d0/main.asm': 'nop\n#include "lib.asm"\n', 'd1/lib.asm': 'lab9:\n.byte 7\n'}, 'main': 'd0/main.asm',
+                      'links': [('d1/lib.asm', 'd2/lib.asm')], 'include_dirs': ['d1', 'd2'], 'pretty': fmt})
+        tags.append(('one file in two directories', 'lib.asm', fmt))
     # long comments (wider than any terminal) and text beyond ASCII in comments and strings
     longc = 'start:\nld8 1 ; ' + 'a comment that is much wider than a terminal of forty columns ' * 4 + '\n.cstr "caf\u00e9 \u00e0 la carte"  ; \u00fcber\nafter:\n.2byte after\n'
     for fmt in FORMATS:
@@ -197,6 +202,22 @@ def run(chk):
                               f'{ref["status"]}/{(ref["image"] or "")[:40]} vs {o["status"]}/{(o["image"] or "")[:40]}; {ref["msg"][:80]} vs {o["msg"][:80]}',
                               c, {k2: ref[k2] for k2 in ('status', 'image')}, {k2: o[k2] for k2 in ('status', 'image')}, {'kind': t[0]})
                 break
+    # through the command line: a search directory literally called "~" under the working directory, under different HOME values
+    home_case = {'config': carrier_yaml(), 'files': {'main.asm': 'nop\n#include "lib.asm"\n.byte 2\n', '~/lib.asm': '.byte 7\n'}, 'include_dirs': ['~'],
+                 'relative_paths': True, 'pretty': 'listing'}
+    homes = []
+    other_home = tempfile.mkdtemp(prefix='vhome_', dir=runner.SCRATCH_ROOT)       # a home directory that holds a file of the included name
+    with open(os.path.join(other_home, 'lib.asm'), 'w') as f:
+        f.write('.byte 9\n')
+    for hv in ('/root', '/nonexistent-home', other_home):
+        r = runner.run_cli(home_case, env_extra={'HOME': hv})
+        homes.append((hv, r['status'], r['image'].hex() if r.get('image') is not None else None))
+        chk.traces += 1
+    if len({h[1:] for h in homes}) != 1:
+        chk.violation(f'the same command line in the same directory gives different results under different HOME values: {homes}', home_case, homes[0], homes[1:], {'kind': 'home'})
+    chk.notes['home_values'] = [(('<home with lib.asm>' if h[0] == other_home else h[0]),) + h[1:] for h in homes]
+    import shutil as _sh
+    _sh.rmtree(other_home, ignore_errors=True)
     chk.sample({'case': tags[0][0], 'detail': json.loads(tags[0][1]), 'format': tags[0][2], 'outputs_identical_across': len(outs)})
     chk.sample({'case': tags[-1][0], 'detail': tags[-1][1], 'format': tags[-1][2]})
     chk.exhaustive = False
